@@ -314,6 +314,7 @@ def rule_J6(ctx, rule: str = "J6") -> None:
                         f"{'bool' if kt == 'bool' else 'int'} values or the map compares unequal to the original and cannot be encoded",
                         f"M().from_json(M(m={{1: 'x'}}).to_json()) for a map<{kt},string>")
     ctx.floor(rule, "map key kinds", n, 12)
+    rule_J6b(ctx, rule)
 
 
 def rule_K1(ctx) -> None:
@@ -610,6 +611,48 @@ def rule_J5(ctx) -> None:
                         "M(wrapped=0).to_dict() / from_dict round trip")
         else:
             ctx.proved("J5", name, mod.loc(fn), f"{len(paths)} paths")
+
+
+def rule_J6b(ctx, rule: str = "J6") -> None:
+    """map keys on the way out: json.dumps writes Python keys in their canonical JSON spelling (1 -> "1", True -> "true");
+    a key that to_dict converts itself must keep that spelling - str(True) is 'True' """
+    mod = ctx.repo.mod(M_INIT)
+    fn = mod.func("Message.to_dict")
+    inc = N(fn.args.args[2].arg)
+    rep_atom = ("op", "is", ("sub", A(A(SELF, "_betterproto"), "default_gen"), FIELD_NAME), N("list"))
+    for kt in ("bool", "int32", "string"):
+        b = dict(type_binding("map"))
+        b[A(META, "map_types")] = (kt, "string")
+        assume = {inc: False, rep_atom: False, ("op", "is", VALUE, C(None)): False, ("raises", ("AttributeError",), VALUE): False}
+        paths = interp_for(mod, bindings=b, assume=assume, inline=_small_helpers(mod, fn, ENC_CLASSES), fork_ifexp=True).run(fn)
+        ctx.count(len(paths))
+        keys = set()
+        n = 0
+        for p in paths:
+            if p.outcome == "raise" or _decides_wellknown(p.valuation):
+                continue
+            # a bool key is not a str: paths that decided otherwise are infeasible for this key kind
+            if kt != "string" and any(v for k, v in p.valuation.items() if k[0] == "call" and k[1] == N("isinstance") and len(k[2]) == 2 and k[2][1] == N("str") and "items()" in show(k[2][0])):
+                continue
+            for e in p.events:
+                if e.kind == "store" and e.data[0][0] == "sub" and e.loops and len(e.loops) >= 2:
+                    k = e.data[0][2]
+                    n += 1
+                    if any(dotted(c[1]) in ("str", "repr", "format") for c in calls(k)) or k[0] == "fstr":
+                        keys.add("str")
+                    elif any(t[0] == "c" and t[1] in ("true", "false") for t in walk(k)) or any(dotted(c[1]).endswith("dumps") for c in calls(k)):
+                        keys.add("json")
+                    else:
+                        keys.add("identity")
+        name = f"to_dict[map-key:{kt}]"
+        if not n:
+            ctx.inconclusive(rule, name, "no store into a map output found", mod.loc(fn))
+        elif kt == "bool" and "str" in keys:
+            ctx.refuted(rule, name, "str(bool)", mod.loc(fn),
+                        "to_dict turns map keys into text with str(): for a map<bool, ...> that is \"True\"/\"False\", which neither the reference parser nor from_dict "
+                        "(which compares with \"true\") reads back as the key that was written", "M(flags={True: 'x'}).to_json()")
+        else:
+            ctx.proved(rule, name, mod.loc(fn), ",".join(sorted(keys)))
 
 
 # ---------------------------------------------------------------------------
